@@ -1,2 +1,842 @@
-(* Proofs about Model/Codec.v (under construction). *)
-From XV Require Import Lib.Sx Model.Codec.
+(* Proofs about Model/Codec.v: dec (enc v) = Some v on well-formed values, enc of a
+   well-formed value is a well-formed document, skeletons ignore text. *)
+From Coq Require Import List ZArith NArith Bool Lia.
+From XV Require Import Lib.Sx Model.XmlText Model.XmlPrint Model.XmlLex Model.Codec
+  Proofs.XmlTextP Proofs.XmlLexP.
+Import ListNotations.
+Open Scope N_scope.
+
+(* ================= decimal numbers ================= *)
+Definition dstep (a d : N) : N := a * 10 + (d - 48).
+
+Lemma digits_value_eq ds : digits_value ds = fold_left dstep ds 0.
+Proof. reflexivity. Qed.
+
+Lemma udigits_value fuel : forall n acc,
+  n < 2 ^ N.of_nat fuel ->
+  fold_left dstep (udigits fuel n acc) 0 = fold_left dstep acc n.
+Proof.
+  induction fuel as [|f IH]; intros n acc Hn.
+  - change (2 ^ N.of_nat 0) with 1 in Hn. assert (n = 0) by lia. subst n. reflexivity.
+  - cbn [udigits].
+    assert (Hd : 48 + n mod 10 - 48 = n mod 10) by (generalize (n mod 10); intros; lia).
+    destruct (n / 10 =? 0) eqn:E.
+    + apply N.eqb_eq in E. cbn [fold_left]. unfold dstep at 2. rewrite Hd.
+      apply N.div_small_iff in E; [|lia]. rewrite N.mod_small by exact E. reflexivity.
+    + rewrite IH.
+      * cbn [fold_left]. unfold dstep at 2. rewrite Hd.
+        f_equal. pose proof (N.div_mod' n 10). lia.
+      * rewrite Nat2N.inj_succ, N.pow_succ_r' in Hn.
+        apply N.div_lt_upper_bound; lia.
+Qed.
+
+Lemma digits_value_utoa n : digits_value (utoa n) = n.
+Proof.
+  rewrite digits_value_eq. unfold utoa. rewrite udigits_value; [reflexivity|].
+  rewrite Nat2N.inj_succ, N2Nat.id, N.pow_succ_r'.
+  pose proof (N.size_gt n). lia.
+Qed.
+
+Lemma udigits_digits fuel : forall n acc,
+  forallb is_digit acc = true -> forallb is_digit (udigits fuel n acc) = true.
+Proof.
+  induction fuel as [|f IH]; intros n acc H; [exact H|].
+  cbn [udigits].
+  assert (Hd : forallb is_digit ((48 + n mod 10) :: acc) = true).
+  { cbn [forallb]. rewrite H, andb_true_r. unfold is_digit.
+    assert (Hm : n mod 10 < 10) by (apply N.mod_upper_bound; lia). revert Hm. generalize (n mod 10). intros m Hm.
+    apply andb_true_iff. split; apply N.leb_le; lia. }
+  destruct (n / 10 =? 0); [exact Hd|apply IH; exact Hd].
+Qed.
+
+Lemma udigits_nonempty fuel : forall n acc, nonempty acc = true -> nonempty (udigits fuel n acc) = true.
+Proof.
+  induction fuel as [|f IH]; intros n acc H; [exact H|].
+  cbn [udigits]. destruct (n / 10 =? 0); [reflexivity|apply IH; reflexivity].
+Qed.
+
+Lemma all_digits_utoa n : all_digits (utoa n) = true.
+Proof.
+  unfold all_digits, utoa. apply andb_true_iff. split.
+  - cbn [udigits]. destruct (n / 10 =? 0); [reflexivity|apply udigits_nonempty; reflexivity].
+  - apply udigits_digits. reflexivity.
+Qed.
+
+Lemma parse_uint_utoa bits n : n < 2 ^ bits -> parse_uint bits (utoa n) = Some n.
+Proof.
+  intros H. unfold parse_uint. rewrite all_digits_utoa, digits_value_utoa.
+  apply N.ltb_lt in H. now rewrite H.
+Qed.
+
+Lemma utoa_head n : exists c r, utoa n = c :: r /\ is_digit c = true.
+Proof.
+  pose proof (all_digits_utoa n) as H. unfold all_digits in H.
+  destruct (utoa n) as [|c r]; [discriminate|].
+  cbn [nonempty forallb andb] in H. apply andb_true_iff in H as [H _]. now exists c, r.
+Qed.
+
+Lemma parse_uint_field_utoa bits n : n < 2 ^ bits -> parse_uint_field bits (utoa n) = Some n.
+Proof.
+  intros H. unfold parse_uint_field. destruct (utoa_head n) as (c & r & E & _).
+  rewrite E, <- E. now apply parse_uint_utoa.
+Qed.
+
+Lemma parse_int_itoa bits z :
+  (- Z.of_N (2 ^ (bits - 1)) <= z < Z.of_N (2 ^ (bits - 1)))%Z ->
+  parse_int bits (itoa z) = Some z.
+Proof.
+  intros Hz. unfold itoa. destruct (z <? 0)%Z eqn:E.
+  - apply Z.ltb_lt in E. cbn [parse_int]. rewrite N.eqb_refl.
+    rewrite all_digits_utoa, digits_value_utoa.
+    assert (H : (Z.to_N (- z) <=? 2 ^ (bits - 1)) = true) by (apply N.leb_le; lia).
+    rewrite H. f_equal. lia.
+  - apply Z.ltb_ge in E. destruct (utoa_head (Z.to_N z)) as (c & r & Eq & Hc).
+    rewrite Eq. cbn [parse_int].
+    unfold is_digit in Hc. apply andb_true_iff in Hc as [H1 H2].
+    apply N.leb_le in H1, H2.
+    assert (E45 : (c =? 45) = false) by (apply N.eqb_neq; lia).
+    assert (E43 : (c =? 43) = false) by (apply N.eqb_neq; lia).
+    rewrite E45, E43, <- Eq, all_digits_utoa, digits_value_utoa.
+    assert (H : (Z.to_N z <? 2 ^ (bits - 1)) = true) by (apply N.ltb_lt; lia).
+    rewrite H. f_equal. lia.
+Qed.
+
+Lemma itoa_nonempty z : itoa z <> [].
+Proof.
+  unfold itoa. destruct (z <? 0)%Z; [discriminate|].
+  destruct (utoa_head (Z.to_N z)) as (c & r & E & _). rewrite E. discriminate.
+Qed.
+
+Lemma parse_int_field_itoa bits z :
+  (- Z.of_N (2 ^ (bits - 1)) <= z < Z.of_N (2 ^ (bits - 1)))%Z ->
+  parse_int_field bits (itoa z) = Some z.
+Proof.
+  intros H. unfold parse_int_field. pose proof (itoa_nonempty z) as Hn.
+  destruct (itoa z) as [|c r] eqn:E; [congruence|]. rewrite <- E. now apply parse_int_itoa.
+Qed.
+
+Lemma is_digit_plain c : is_digit c = true -> plain_char c = true.
+Proof.
+  unfold is_digit. intros H. apply andb_true_iff in H as [H1 H2]. apply N.leb_le in H1, H2.
+  unfold plain_char, legal.
+  assert (E1 : (32 <=? c) = true) by (apply N.leb_le; lia).
+  assert (E2 : (c <=? 55295) = true) by (apply N.leb_le; lia).
+  rewrite E1, E2. cbn [andb orb]. rewrite !orb_true_r. cbn [andb].
+  cbn [existsb].
+  repeat match goal with |- context [N.eqb c ?k] =>
+    let E := fresh in assert (E : N.eqb c k = false) by (apply N.eqb_neq; lia); rewrite E; clear E end.
+  reflexivity.
+Qed.
+
+Lemma plain_utoa n : plain (utoa n) = true.
+Proof.
+  pose proof (all_digits_utoa n) as H. unfold all_digits in H.
+  apply andb_true_iff in H as [_ H]. unfold plain.
+  rewrite forallb_forall in H |- *. intros x Hx. apply is_digit_plain. now apply H.
+Qed.
+
+Lemma plain_itoa z : plain (itoa z) = true.
+Proof.
+  unfold itoa. destruct (z <? 0)%Z; [|apply plain_utoa].
+  cbn [plain forallb]. fold (plain (utoa (Z.to_N (- z)))). now rewrite plain_utoa.
+Qed.
+
+Lemma all_legal_utoa n : all_legal (utoa n) = true.
+Proof. apply plain_all_legal, plain_utoa. Qed.
+Lemma all_legal_itoa z : all_legal (itoa z) = true.
+Proof. apply plain_all_legal, plain_itoa. Qed.
+
+Lemma parse_bool_btoa b : parse_bool (btoa b) = Some b.
+Proof. destruct b; reflexivity. Qed.
+
+Global Opaque utoa itoa.
+
+(* ================= small helpers ================= *)
+Lemma texts_app a b : texts (a ++ b) = texts a ++ texts b.
+Proof. unfold texts. apply flat_map_app. Qed.
+
+Lemma texts_text_raw s : texts (text_raw s) = s.
+Proof. destruct s; [reflexivity|]. cbn. now rewrite app_nil_r. Qed.
+
+Lemma texts_text_esc s : texts (text_esc s) = s.
+Proof. destruct s; [reflexivity|]. cbn. now rewrite app_nil_r. Qed.
+
+Lemma no_adj_elems ks : forallb is_elem ks = true -> no_adj ks = true.
+Proof.
+  induction ks as [|k ks IH]; [reflexivity|]. cbn [forallb]. intros H.
+  apply andb_true_iff in H as [Hk Hks]. cbn [no_adj]. destruct ks as [|k' ks']; [reflexivity|].
+  unfold is_elem in Hk. apply negb_true_iff in Hk. rewrite Hk. cbn [andb negb]. now apply IH.
+Qed.
+
+Lemma no_adj_elems_then ks tl :
+  forallb is_elem ks = true -> (tl = [] \/ exists t, tl = [t]) -> no_adj (ks ++ tl) = true.
+Proof.
+  intros Hks Htl. induction ks as [|k ks IH].
+  - destruct Htl as [->|[t ->]]; reflexivity.
+  - cbn [forallb] in Hks. apply andb_true_iff in Hks as [Hk Hks].
+    specialize (IH Hks). cbn [app no_adj]. destruct (ks ++ tl) as [|k' r]; [reflexivity|].
+    unfold is_elem in Hk. apply negb_true_iff in Hk. rewrite Hk. cbn [andb negb].
+    exact IH.
+Qed.
+
+Lemma implb_same b : implb b b = true.
+Proof. now destruct b. Qed.
+
+Lemma wf_text_raw pns s : all_legal s = true -> forallb (wf_tree pns) (text_raw s) = true.
+Proof.
+  intros H. destruct s as [|c s]; [reflexivity|].
+  cbn [text_raw forallb wf_tree nonempty]. rewrite H, implb_same. reflexivity.
+Qed.
+
+Lemma wf_text_esc pns s : all_legal s = true -> forallb (wf_tree pns) (text_esc s) = true.
+Proof.
+  intros H. destruct s as [|c s]; [reflexivity|].
+  cbn [text_esc forallb wf_tree nonempty implb]. now rewrite H.
+Qed.
+
+Lemma text_raw_shape s : text_raw s = [] \/ exists t, text_raw s = [t].
+Proof. destruct s; [now left|right; eexists; reflexivity]. Qed.
+Lemma text_esc_shape s : text_esc s = [] \/ exists t, text_esc s = [t].
+Proof. destruct s; [now left|right; eexists; reflexivity]. Qed.
+
+(* ================= generic nodes ================= *)
+Fixpoint node_ind' (P : node -> Prop)
+  (H : forall ns l a c ks, Forall P ks -> P (Node ns l a c ks)) (n : node) : P n :=
+  match n with
+  | Node ns l a c ks =>
+      H ns l a c ks
+        ((fix go (l : list node) : Forall P l :=
+            match l with
+            | [] => Forall_nil P
+            | k :: l' => Forall_cons k (node_ind' P H k) (go l')
+            end) ks)
+  end.
+
+Lemma enc_node_eq ns l a c ks :
+  enc_node (Node ns l a c ks) = XE ns l a (map enc_node ks ++ text_raw c).
+Proof. reflexivity. Qed.
+
+Lemma wf_node_eq pns ns l a c ks :
+  wf_node pns (Node ns l a c ks) =
+  name_ok l && all_legal ns && (nonempty ns || isempty pns) && forallb attr_ok a && all_legal c
+  && forallb (wf_node ns) ks.
+Proof. reflexivity. Qed.
+
+Lemma blank_node_eq ns l a c ks :
+  blank_node (Node ns l a c ks) =
+  Node ns l (map (fun kv => (fst kv, [])) a) (blank_str c) (map blank_node ks).
+Proof. reflexivity. Qed.
+
+Fixpoint dec_nodes (ks : list xtree) : option (list node) :=
+  match ks with
+  | [] => Some []
+  | XT _ _ :: ks' => dec_nodes ks'
+  | (XE _ _ _ _ as k) :: ks' =>
+      match dec_node k, dec_nodes ks' with
+      | Some n, Some r => Some (n :: r)
+      | _, _ => None
+      end
+  end.
+
+Lemma dec_node_XE ns l a kids :
+  dec_node (XE ns l a kids) =
+  match dec_nodes kids with
+  | Some ns' => Some (Node ns l a (texts kids) ns')
+  | None => None
+  end.
+Proof. reflexivity. Qed.
+
+Lemma enc_node_is_elem n : is_elem (enc_node n) = true.
+Proof. destruct n. reflexivity. Qed.
+
+Lemma texts_enc_nodes ks : texts (map enc_node ks) = [].
+Proof. induction ks as [|[ns l a c kk] ks IH]; [reflexivity|]. cbn [map]. rewrite enc_node_eq. exact IH. Qed.
+
+Lemma dec_nodes_enc ks c :
+  Forall (fun k => dec_node (enc_node k) = Some k) ks ->
+  dec_nodes (map enc_node ks ++ text_raw c) = Some ks.
+Proof.
+  induction 1 as [|k ks Hk _ IH].
+  - destruct c; reflexivity.
+  - cbn [map app]. destruct k as [ns l a c' kk]. rewrite enc_node_eq in *.
+    cbn [dec_nodes]. rewrite Hk, IH. reflexivity.
+Qed.
+
+Theorem dec_enc_node n : dec_node (enc_node n) = Some n.
+Proof.
+  induction n as [ns l a c ks IH] using node_ind'.
+  rewrite enc_node_eq, dec_node_XE, (dec_nodes_enc ks c IH).
+  now rewrite texts_app, texts_enc_nodes, texts_text_raw.
+Qed.
+
+Lemma wf_enc_node n : forall pns, wf_node pns n = true -> wf_tree pns (enc_node n) = true.
+Proof.
+  induction n as [ns l a c ks IH] using node_ind'. intros pns H.
+  rewrite wf_node_eq in H. repeat (apply andb_true_iff in H as [H ?]).
+  rewrite enc_node_eq, wf_tree_XE. rewrite H, H4, H3, H2. cbn [andb].
+  rewrite no_adj_elems_then.
+  2:{ clear. induction ks as [|k ks IHk]; [reflexivity|]. cbn [map forallb]. now rewrite enc_node_is_elem. }
+  2:{ apply text_raw_shape. }
+  rewrite forallb_app, (wf_text_raw ns c H1), andb_true_r. cbn [andb].
+  clear -IH H0. induction ks as [|k ks IHk]; [reflexivity|].
+  cbn [map forallb] in *. apply andb_true_iff in H0 as [Hk Hks].
+  inversion IH as [|? ? IHk0 IHks]; subst. rewrite (IHk0 ns Hk). now apply IHk.
+Qed.
+
+Lemma skeleton_text_raw s : flat_map skeleton (text_raw s) = [].
+Proof. now destruct s. Qed.
+Lemma skeleton_text_esc s : flat_map skeleton (text_esc s) = [].
+Proof. now destruct s. Qed.
+
+Lemma skeleton_blank_node n : skeleton (enc_node (blank_node n)) = skeleton (enc_node n).
+Proof.
+  induction n as [ns l a c ks IH] using node_ind'.
+  rewrite blank_node_eq, !enc_node_eq, !skeleton_XE. f_equal. f_equal.
+  - rewrite map_map. apply map_ext. reflexivity.
+  - rewrite !flat_map_app, !skeleton_text_raw, !app_nil_r.
+    induction IH as [|k ks Hk _ IHk]; [reflexivity|].
+    cbn [map flat_map]. now rewrite Hk, IHk.
+Qed.
+
+(* ================= Attrs ================= *)
+Theorem dec_enc_attrs a : dec_attrs (enc_attrs a) = a.
+Proof.
+  destruct a as [[|? ?] [|? ?] [|? ?] [|? ?] [|? ?]]; reflexivity.
+Qed.
+
+Lemma attr_ok_opt k v :
+  name_ok k = true -> str_eqb k xmlns_s = false -> all_legal v = true ->
+  forallb attr_ok (opt_attr k v) = true.
+Proof.
+  intros Hk Hx Hv. destruct v as [|c v]; [reflexivity|].
+  cbn [opt_attr forallb]. unfold attr_ok. cbn [fst snd]. now rewrite Hk, Hx, Hv.
+Qed.
+
+Lemma wf_enc_attrs a : wf_attrs a = true -> forallb attr_ok (enc_attrs a) = true.
+Proof.
+  unfold wf_attrs, enc_attrs. intros H. repeat (apply andb_true_iff in H as [H ?]).
+  rewrite !forallb_app, !attr_ok_opt; auto.
+Qed.
+
+Lemma map_fst_opt_attr k v : map fst (opt_attr k (blank_str v)) = map fst (opt_attr k v).
+Proof. now destruct v. Qed.
+
+Lemma skeleton_attrs a : map fst (enc_attrs (blank_attrs a)) = map fst (enc_attrs a).
+Proof.
+  unfold enc_attrs, blank_attrs. cbn [a_type a_id a_from a_to a_lang].
+  now rewrite !map_app, !map_fst_opt_attr.
+Qed.
+
+(* ================= Err ================= *)
+Lemma Z63 : Z.of_N (2 ^ (64 - 1)) = (2 ^ 63)%Z.
+Proof. reflexivity. Qed.
+
+Lemma err_attrs_code code ty :
+  (- 2 ^ 63 <= code < 2 ^ 63)%Z ->
+  match attr_last s_code ((if (code =? 0)%Z then [] else [(s_code, itoa code)]) ++ opt_attr s_type ty) None with
+  | Some v => match parse_int 64 v with Some z => z | None => 0%Z end
+  | None => 0%Z
+  end = code.
+Proof.
+  intros Hc. destruct (code =? 0)%Z eqn:E.
+  - apply Z.eqb_eq in E. subst code. now destruct ty.
+  - assert (Hp : parse_int 64 (itoa code) = Some code) by (apply parse_int_itoa; rewrite Z63; lia).
+    destruct ty; cbn; now rewrite Hp.
+Qed.
+
+Lemma err_attrs_type code ty :
+  attr_str s_type ((if (code =? 0)%Z then [] else [(s_code, itoa code)]) ++ opt_attr s_type ty) [] = ty.
+Proof. destruct (code =? 0)%Z; destruct ty; reflexivity. Qed.
+
+Lemma err_children code ty reason text :
+  (isempty reason || (name_ok reason && negb (str_eqb reason s_text) && negb (str_eqb reason s_gone))) = true ->
+  fold_left err_child
+    ((match reason with [] => [] | rc :: rr => [XE ns_stanzas (rc :: rr) [] []] end)
+     ++ (match text with [] => [] | tc :: tx => [XE ns_stanzas s_text [] (text_raw (tc :: tx))] end))
+    (mkErr code ty [] []) = mkErr code ty reason text.
+Proof.
+  intros Hr.
+  assert (Htext : forall e, err_child e (XE ns_stanzas s_text [] (text_raw text))
+                            = mkErr (e_code e) (e_type e) (e_reason e) text).
+  { intros e. cbn [err_child]. rewrite texts_text_raw. reflexivity. }
+  destruct reason as [|rc rr].
+  - destruct text as [|tc tx]; [reflexivity|]. cbn [app fold_left]. now rewrite Htext.
+  - cbn [isempty orb] in Hr. apply andb_true_iff in Hr as [Hr Hg]. apply andb_true_iff in Hr as [_ Ht].
+    apply negb_true_iff in Ht, Hg.
+    assert (Hreason : forall e, err_child e (XE ns_stanzas (rc :: rr) [] [])
+                                = mkErr (e_code e) (e_type e) (rc :: rr) (e_text e)).
+    { intros e. cbn [err_child]. rewrite Ht, Hg. reflexivity. }
+    destruct text as [|tc tx]; cbn [app fold_left]; rewrite Hreason; [reflexivity|].
+    now rewrite Htext.
+Qed.
+
+(* a non-empty error is one element, decoded back from a zero value *)
+Definition err_tree (e : err) : xtree :=
+  XE [] s_error
+    ((if (e_code e =? 0)%Z then [] else [(s_code, itoa (e_code e))]) ++ opt_attr s_type (e_type e))
+    ((match e_reason e with [] => [] | r => [XE ns_stanzas r [] []] end)
+     ++ (match e_text e with [] => [] | t => [XE ns_stanzas s_text [] (text_raw t)] end)).
+
+Lemma enc_err_cases e :
+  (err_empty e = true /\ enc_err e = [] /\ e = zero_err) \/
+  (err_empty e = false /\ enc_err e = [err_tree e]).
+Proof.
+  unfold enc_err. destruct (err_empty e) eqn:E; [left|right; auto].
+  repeat split. unfold err_empty in E. destruct e as [c t r x]. cbn in E.
+  repeat (apply andb_true_iff in E as [E ?]). apply Z.eqb_eq in E. subst c.
+  destruct t, r, x; try discriminate. reflexivity.
+Qed.
+
+Lemma dec_err_tree e : wf_err e = true -> dec_err zero_err (err_tree e) = Some e.
+Proof.
+  unfold wf_err. intros H. repeat (apply andb_true_iff in H as [H ?]).
+  apply Z.leb_le in H. apply Z.ltb_lt in H3.
+  destruct e as [code ty reason text]. cbn [e_code e_type e_reason e_text] in *.
+  unfold err_tree, dec_err. cbn [e_code e_type e_reason e_text zero_err].
+  rewrite err_attrs_code by lia. rewrite err_attrs_type. now rewrite err_children.
+Qed.
+
+Lemma name_ok_not_xmlns_code : name_ok s_code = true /\ str_eqb s_code xmlns_s = false.
+Proof. split; reflexivity. Qed.
+
+Lemma wf_err_tree e : wf_err e = true -> wf_tree [] (err_tree e) = true.
+Proof.
+  unfold wf_err. intros H. repeat (apply andb_true_iff in H as [H ?]).
+  destruct e as [code ty reason text]. cbn [e_code e_type e_reason e_text] in *.
+  unfold err_tree. cbn [e_code e_type e_reason e_text]. rewrite wf_tree_XE.
+  assert (Ha : forallb attr_ok ((if (code =? 0)%Z then [] else [(s_code, itoa code)]) ++ opt_attr s_type ty) = true).
+  { rewrite forallb_app, attr_ok_opt by (auto; reflexivity). rewrite andb_true_r.
+    destruct (code =? 0)%Z; [reflexivity|]. cbn [forallb]. unfold attr_ok. cbn [fst snd].
+    now rewrite all_legal_itoa. }
+  rewrite Ha.
+  assert (Hk : forallb (wf_tree [])
+            ((match reason with [] => [] | rc :: rr => [XE ns_stanzas (rc :: rr) [] []] end)
+             ++ (match text with [] => [] | tc :: tx => [XE ns_stanzas s_text [] (text_raw (tc :: tx))] end)) = true).
+  { rewrite forallb_app. apply andb_true_iff. split.
+    - destruct reason as [|rc rr]; [reflexivity|]. cbn [isempty orb] in H0.
+      apply andb_true_iff in H0 as [H0 _]. apply andb_true_iff in H0 as [H0 _].
+      cbn [forallb]. rewrite wf_tree_XE, H0. reflexivity.
+    - destruct text as [|tc tx]; [reflexivity|]. cbn [forallb]. rewrite wf_tree_XE.
+      rewrite (wf_text_raw ns_stanzas (tc :: tx) H1). reflexivity. }
+  rewrite Hk, no_adj_elems; [reflexivity|].
+  rewrite forallb_app. destruct reason, text; reflexivity.
+Qed.
+
+Lemma skeleton_err_tree e :
+  err_empty (blank_err e) = err_empty e /\
+  skeleton (err_tree (blank_err e)) = skeleton (err_tree e).
+Proof.
+  destruct e as [code ty reason text]. split.
+  - unfold err_empty, blank_err. cbn. now destruct ty, text.
+  - unfold err_tree, blank_err. cbn [e_code e_type e_reason e_text].
+    rewrite !skeleton_XE. f_equal. f_equal.
+    + rewrite !map_app, map_fst_opt_attr. reflexivity.
+    + rewrite !flat_map_app. f_equal. destruct text; reflexivity.
+Qed.
+
+(* ================= Message / Presence / IQ ================= *)
+Arguments registered : simpl never.
+
+Lemma reg_ok_parts reg :
+  reg_ok reg = true ->
+  registered reg 1 [] s_subject = false /\ registered reg 1 [] s_body = false /\
+  registered reg 1 [] s_thread = false /\ registered reg 1 [] s_error = false /\
+  registered reg 0 [] s_show = false /\ registered reg 0 [] s_status = false /\
+  registered reg 0 [] s_priority = false /\ registered reg 0 [] s_error = false.
+Proof.
+  unfold reg_ok. intros H. repeat (apply andb_true_iff in H as [H ?]).
+  repeat match goal with Hx : negb _ = true |- _ => apply negb_true_iff in Hx end.
+  repeat split; assumption.
+Qed.
+
+Lemma msg_step_subject reg m s :
+  reg_ok reg = true ->
+  msg_child reg (Some m) (XE [] s_subject [] [XT false s])
+  = Some (mkMessage (m_attrs m) s (m_body m) (m_thread m) (m_error m) (m_exts m)).
+Proof.
+  intros H. destruct (reg_ok_parts reg H) as (H1 & _). cbn [msg_child]. rewrite H1.
+  cbn. now rewrite app_nil_r.
+Qed.
+Lemma msg_step_body reg m s :
+  reg_ok reg = true ->
+  msg_child reg (Some m) (XE [] s_body [] [XT false s])
+  = Some (mkMessage (m_attrs m) (m_subject m) s (m_thread m) (m_error m) (m_exts m)).
+Proof.
+  intros H. destruct (reg_ok_parts reg H) as (_ & H1 & _). cbn [msg_child]. rewrite H1.
+  cbn. now rewrite app_nil_r.
+Qed.
+Lemma msg_step_thread reg m s :
+  reg_ok reg = true ->
+  msg_child reg (Some m) (XE [] s_thread [] [XT false s])
+  = Some (mkMessage (m_attrs m) (m_subject m) (m_body m) s (m_error m) (m_exts m)).
+Proof.
+  intros H. destruct (reg_ok_parts reg H) as (_ & _ & H1 & _). cbn [msg_child]. rewrite H1.
+  cbn. now rewrite app_nil_r.
+Qed.
+
+Lemma msg_seg_error reg a s b t x e :
+  reg_ok reg = true -> wf_err e = true ->
+  fold_left (msg_child reg) (enc_err e) (Some (mkMessage a s b t zero_err x))
+  = Some (mkMessage a s b t e x).
+Proof.
+  intros H He. destruct (reg_ok_parts reg H) as (_ & _ & _ & H1 & _).
+  destruct (enc_err_cases e) as [(_ & -> & ->)|(_ & ->)]; [reflexivity|].
+  cbn [fold_left]. unfold err_tree at 1. cbn [msg_child]. rewrite H1.
+  change (str_eqb s_error s_body) with false. change (str_eqb s_error s_thread) with false.
+  change (str_eqb s_error s_subject) with false. change (str_eqb s_error s_error) with true.
+  cbv iota. cbn [m_error]. fold (err_tree e). now rewrite (dec_err_tree e He).
+Qed.
+
+Lemma msg_seg_exts reg a s b t e exts : forall x0,
+  forallb (root_registered reg 1) exts = true ->
+  fold_left (msg_child reg) exts (Some (mkMessage a s b t e x0))
+  = Some (mkMessage a s b t e (x0 ++ exts)).
+Proof.
+  induction exts as [|k ks IH]; intros x0 H; [now rewrite app_nil_r|].
+  cbn [forallb] in H. apply andb_true_iff in H as [Hk Hks].
+  cbn [fold_left]. destruct k as [ns l ka kk|raw tx]; [|discriminate].
+  cbn [root_registered] in Hk. cbn [msg_child]. rewrite Hk. cbn [m_attrs m_subject m_body m_thread m_error m_exts].
+  rewrite IH by exact Hks. now rewrite <- app_assoc.
+Qed.
+
+Lemma wf_ext_parts reg kind exts :
+  forallb (wf_ext reg kind) exts = true ->
+  forallb (root_registered reg kind) exts = true /\ forallb is_elem exts = true /\
+  forallb (wf_tree []) exts = true.
+Proof.
+  induction exts as [|k ks IH]; [auto|]. cbn [forallb]. intros H.
+  apply andb_true_iff in H as [Hk Hks]. destruct (IH Hks) as (I1 & I2 & I3).
+  unfold wf_ext, wf_doc in Hk. apply andb_true_iff in Hk as [Hk Hr]. apply andb_true_iff in Hk as [He Hw].
+  now rewrite Hr, He, Hw, I1, I2, I3.
+Qed.
+
+Theorem dec_enc_message reg m :
+  reg_ok reg = true -> wf_message reg m = true -> dec_message reg (enc_message m) = Some m.
+Proof.
+  intros Hreg Hwf. destruct m as [a su bo th e ex]. unfold wf_message in Hwf.
+  cbn [m_attrs m_subject m_body m_thread m_error m_exts] in Hwf.
+  repeat (apply andb_true_iff in Hwf as [Hwf ?]).
+  destruct (wf_ext_parts reg 1 ex H) as (Hr & _ & _).
+  unfold enc_message, dec_message. cbn [m_attrs m_subject m_body m_thread m_error m_exts].
+  rewrite dec_enc_attrs, !fold_left_app.
+  assert (S1 : fold_left (msg_child reg) (opt_elem s_subject su) (Some (mkMessage a [] [] [] zero_err []))
+               = Some (mkMessage a su [] [] zero_err [])).
+  { destruct su; [reflexivity|]. cbn [opt_elem fold_left]. now rewrite msg_step_subject. }
+  rewrite S1.
+  assert (S2 : fold_left (msg_child reg) (opt_elem s_body bo) (Some (mkMessage a su [] [] zero_err []))
+               = Some (mkMessage a su bo [] zero_err [])).
+  { destruct bo; [reflexivity|]. cbn [opt_elem fold_left]. now rewrite msg_step_body. }
+  rewrite S2.
+  assert (S3 : fold_left (msg_child reg) (opt_elem s_thread th) (Some (mkMessage a su bo [] zero_err []))
+               = Some (mkMessage a su bo th zero_err [])).
+  { destruct th; [reflexivity|]. cbn [opt_elem fold_left]. now rewrite msg_step_thread. }
+  rewrite S3, (msg_seg_error reg a su bo th [] e Hreg H0), (msg_seg_exts reg a su bo th e ex [] Hr).
+  reflexivity.
+Qed.
+
+(* ---- presence ---- *)
+Lemma pres_step_show reg p s :
+  reg_ok reg = true ->
+  pres_child reg (Some p) (XE [] s_show [] [XT false s])
+  = Some (mkPresence (p_attrs p) s (p_status p) (p_priority p) (p_error p) (p_exts p)).
+Proof.
+  intros H. destruct (reg_ok_parts reg H) as (_ & _ & _ & _ & H1 & _). cbn [pres_child]. rewrite H1.
+  cbn. now rewrite app_nil_r.
+Qed.
+Lemma pres_step_status reg p s :
+  reg_ok reg = true ->
+  pres_child reg (Some p) (XE [] s_status [] [XT false s])
+  = Some (mkPresence (p_attrs p) (p_show p) s (p_priority p) (p_error p) (p_exts p)).
+Proof.
+  intros H. destruct (reg_ok_parts reg H) as (_ & _ & _ & _ & _ & H1 & _). cbn [pres_child]. rewrite H1.
+  cbn. now rewrite app_nil_r.
+Qed.
+Lemma Z7 : Z.of_N (2 ^ (8 - 1)) = 128%Z.
+Proof. reflexivity. Qed.
+Lemma pres_step_priority reg p z :
+  reg_ok reg = true -> (-128 <= z <= 127)%Z ->
+  pres_child reg (Some p) (XE [] s_priority [] [XT false (itoa z)])
+  = Some (mkPresence (p_attrs p) (p_show p) (p_status p) z (p_error p) (p_exts p)).
+Proof.
+  intros H Hz. destruct (reg_ok_parts reg H) as (_ & _ & _ & _ & _ & _ & H1 & _).
+  cbn [pres_child]. rewrite H1.
+  change (str_eqb s_priority s_show) with false. change (str_eqb s_priority s_status) with false.
+  change (str_eqb s_priority s_priority) with true. cbv iota.
+  cbn [texts flat_map]. rewrite app_nil_r.
+  rewrite parse_int_field_itoa by (rewrite Z7; lia). reflexivity.
+Qed.
+
+Lemma pres_seg_error reg a s b z x e :
+  reg_ok reg = true -> wf_err e = true ->
+  fold_left (pres_child reg) (enc_err e) (Some (mkPresence a s b z zero_err x))
+  = Some (mkPresence a s b z e x).
+Proof.
+  intros H He. destruct (reg_ok_parts reg H) as (_ & _ & _ & _ & _ & _ & _ & H1).
+  destruct (enc_err_cases e) as [(_ & -> & ->)|(_ & ->)]; [reflexivity|].
+  cbn [fold_left]. unfold err_tree at 1. cbn [pres_child]. rewrite H1.
+  change (str_eqb s_error s_show) with false. change (str_eqb s_error s_status) with false.
+  change (str_eqb s_error s_priority) with false. change (str_eqb s_error s_error) with true.
+  cbv iota. cbn [p_error]. fold (err_tree e). now rewrite (dec_err_tree e He).
+Qed.
+
+Lemma pres_seg_exts reg a s b z e exts : forall x0,
+  forallb (root_registered reg 0) exts = true ->
+  fold_left (pres_child reg) exts (Some (mkPresence a s b z e x0))
+  = Some (mkPresence a s b z e (x0 ++ exts)).
+Proof.
+  induction exts as [|k ks IH]; intros x0 H; [now rewrite app_nil_r|].
+  cbn [forallb] in H. apply andb_true_iff in H as [Hk Hks].
+  cbn [fold_left]. destruct k as [ns l ka kk|raw tx]; [|discriminate].
+  cbn [root_registered] in Hk. cbn [pres_child]. rewrite Hk.
+  cbn [p_attrs p_show p_status p_priority p_error p_exts].
+  rewrite IH by exact Hks. now rewrite <- app_assoc.
+Qed.
+
+Theorem dec_enc_presence reg p :
+  reg_ok reg = true -> wf_presence reg p = true -> dec_presence reg (enc_presence p) = Some p.
+Proof.
+  intros Hreg Hwf. destruct p as [a sh st pr e ex]. unfold wf_presence in Hwf.
+  cbn [p_attrs p_show p_status p_priority p_error p_exts] in Hwf.
+  repeat (apply andb_true_iff in Hwf as [Hwf ?]).
+  apply andb_true_iff in H1 as [H1 H1']. apply Z.leb_le in H1. apply Z.leb_le in H1'.
+  destruct (wf_ext_parts reg 0 ex H) as (Hr & _ & _).
+  unfold enc_presence, dec_presence. cbn [p_attrs p_show p_status p_priority p_error p_exts].
+  rewrite dec_enc_attrs, !fold_left_app.
+  assert (S1 : fold_left (pres_child reg) (opt_elem s_show sh) (Some (mkPresence a [] [] 0%Z zero_err []))
+               = Some (mkPresence a sh [] 0%Z zero_err [])).
+  { destruct sh; [reflexivity|]. cbn [opt_elem fold_left]. now rewrite pres_step_show. }
+  rewrite S1.
+  assert (S2 : fold_left (pres_child reg) (opt_elem s_status st) (Some (mkPresence a sh [] 0%Z zero_err []))
+               = Some (mkPresence a sh st 0%Z zero_err [])).
+  { destruct st; [reflexivity|]. cbn [opt_elem fold_left]. now rewrite pres_step_status. }
+  rewrite S2.
+  assert (S3 : fold_left (pres_child reg)
+                 (if (pr =? 0)%Z then [] else [XE [] s_priority [] [XT false (itoa pr)]])
+                 (Some (mkPresence a sh st 0%Z zero_err []))
+               = Some (mkPresence a sh st pr zero_err [])).
+  { destruct (pr =? 0)%Z eqn:E; [apply Z.eqb_eq in E; now subst pr|].
+    cbn [fold_left]. rewrite pres_step_priority by (auto; lia). reflexivity. }
+  rewrite S3, (pres_seg_error reg a sh st pr [] e Hreg H0), (pres_seg_exts reg a sh st pr e ex [] Hr).
+  reflexivity.
+Qed.
+
+(* ---- iq ---- *)
+Theorem dec_enc_iq reg i : wf_iq reg i = true -> dec_iq reg (enc_iq i) = Some i.
+Proof.
+  intros Hwf. destruct i as [a pl er an]. unfold wf_iq in Hwf.
+  cbn [i_attrs i_payload i_error i_any] in Hwf.
+  repeat (apply andb_true_iff in Hwf as [Hwf ?]).
+  unfold enc_iq, dec_iq. cbn [i_attrs i_payload i_error i_any].
+  rewrite dec_enc_attrs, !fold_left_app.
+  assert (S1 : fold_left (iq_child reg) (opt_list pl (fun t => [t])) (Some (mkIQ a None None None))
+               = Some (mkIQ a pl None None)).
+  { destruct pl as [t|]; [|reflexivity]. apply andb_true_iff in H1 as [Hx Hn].
+    unfold wf_ext in Hx. apply andb_true_iff in Hx as [_ Hr].
+    destruct t as [ns l ta tk|raw tx]; [|discriminate].
+    cbn [root_registered] in Hr. cbn [root_local_is] in Hn. apply negb_true_iff in Hn.
+    cbn [opt_list fold_left iq_child]. now rewrite Hn, Hr. }
+  rewrite S1.
+  assert (S2 : fold_left (iq_child reg) (opt_list er enc_err) (Some (mkIQ a pl None None))
+               = Some (mkIQ a pl er None)).
+  { destruct er as [e|]; [|reflexivity]. apply andb_true_iff in H0 as [He Hne].
+    apply negb_true_iff in Hne. cbn [opt_list].
+    destruct (enc_err_cases e) as [(Hc & _)|(_ & ->)]; [congruence|].
+    cbn [fold_left]. unfold err_tree at 1. cbn [iq_child].
+    change (str_eqb s_error s_error) with true. cbv iota. fold (err_tree e).
+    now rewrite (dec_err_tree e He). }
+  rewrite S2.
+  destruct an as [n|]; [|reflexivity].
+  destruct n as [ns l na c ks]. apply andb_true_iff in H as [H Hne]. apply andb_true_iff in H as [_ Hnr].
+  apply negb_true_iff in Hne, Hnr.
+  cbn [opt_list fold_left]. rewrite enc_node_eq. cbn [iq_child]. rewrite Hne, Hnr.
+  rewrite <- enc_node_eq, dec_enc_node. reflexivity.
+Qed.
+
+(* ================= the whole core ================= *)
+Lemma fits64_lt n : fits64 n = true -> n < 2 ^ 64.
+Proof. unfold fits64. apply N.ltb_lt. Qed.
+
+Lemma inner_text_esc s : plain s = true -> inner (text_esc s) = Some s.
+Proof. intros H. destruct s as [|c s]; [reflexivity|]. cbn [text_esc inner]. now rewrite H. Qed.
+
+Theorem dec_enc reg v :
+  reg_ok reg = true -> wf_value reg v = true -> dec reg (vtype_of v) (enc v) = Some v.
+Proof.
+  intros Hreg Hwf. destruct v; cbn [vtype_of wf_value] in *.
+  - cbn [dec enc]. now rewrite dec_enc_message.
+  - cbn [dec enc]. now rewrite dec_enc_presence.
+  - cbn [dec enc]. now rewrite dec_enc_iq.
+  - cbn [dec enc]. now rewrite dec_enc_node.
+  - (* enable *)
+    destruct max as [n|], resume as [b|]; cbn [opt_fits64] in Hwf;
+      try (apply fits64_lt in Hwf); cbn;
+      rewrite ?parse_uint_field_utoa by assumption; rewrite ?parse_bool_btoa; reflexivity.
+  - (* enabled *)
+    repeat (apply andb_true_iff in Hwf as [Hwf ?]). apply fits64_lt in H.
+    destruct (max =? 0) eqn:E; [apply N.eqb_eq in E; subst max|];
+      destruct id, location, resume; cbn; rewrite ?E; cbn;
+      rewrite ?parse_uint_field_utoa by assumption; reflexivity.
+  - reflexivity.
+  - apply fits64_lt in Hwf. cbn. now rewrite parse_uint_field_utoa.
+  - apply andb_true_iff in Hwf as [_ Hh].
+    destruct h as [n|]; cbn [opt_fits64] in Hh; try (apply fits64_lt in Hh);
+      destruct previd; cbn; rewrite ?parse_uint_field_utoa by assumption; reflexivity.
+  - apply andb_true_iff in Hwf as [_ Hh].
+    destruct h as [n|]; cbn [opt_fits64] in Hh; try (apply fits64_lt in Hh);
+      destruct previd; cbn; rewrite ?parse_uint_field_utoa by assumption; reflexivity.
+  - destruct h; [discriminate|reflexivity].
+  - apply andb_true_iff in Hwf as [_ Hp]. cbn [enc dec]. unfold named.
+    rewrite !str_eqb_refl. cbn [andb]. rewrite (inner_text_esc val Hp). reflexivity.
+  - cbn [enc dec]. unfold named. rewrite !str_eqb_refl. cbn [andb].
+    now rewrite (inner_text_esc val Hwf).
+Qed.
+
+(* ---- enc of a well-formed value is a well-formed document ---- *)
+Lemma wf_opt_elem name s :
+  name_ok name = true -> all_legal s = true -> forallb (wf_tree []) (opt_elem name s) = true.
+Proof.
+  intros Hn Hs. destruct s as [|c s]; [reflexivity|].
+  cbn [opt_elem forallb]. rewrite wf_tree_XE, Hn. cbn [forallb wf_tree nonempty implb no_adj isempty orb andb].
+  rewrite Hs. reflexivity.
+Qed.
+
+Lemma is_elem_opt_elem name s : forallb is_elem (opt_elem name s) = true.
+Proof. now destruct s. Qed.
+
+Lemma enc_err_wf e : wf_err e = true -> forallb (wf_tree []) (enc_err e) = true /\ forallb is_elem (enc_err e) = true.
+Proof.
+  intros H. destruct (enc_err_cases e) as [(_ & -> & _)|(_ & ->)]; [auto|].
+  cbn [forallb]. now rewrite (wf_err_tree e H).
+Qed.
+
+Lemma wf_doc_stanza name a kids :
+  name_ok name = true -> forallb attr_ok a = true ->
+  forallb is_elem kids = true -> forallb (wf_tree []) kids = true ->
+  wf_doc (XE [] name a kids) = true.
+Proof.
+  intros Hn Ha He Hk. unfold wf_doc. cbn [is_elem is_text negb andb].
+  rewrite wf_tree_XE, Hn, Ha, Hk, (no_adj_elems kids He). reflexivity.
+Qed.
+
+Lemma attr_ok_utoa k n :
+  name_ok k = true -> str_eqb k xmlns_s = false -> attr_ok (k, utoa n) = true.
+Proof. intros H1 H2. unfold attr_ok. cbn [fst snd]. now rewrite H1, H2, all_legal_utoa. Qed.
+
+Lemma attr_ok_opt_uint k o :
+  name_ok k = true -> str_eqb k xmlns_s = false -> forallb attr_ok (opt_uint_attr k o) = true.
+Proof. intros H1 H2. destruct o; [|reflexivity]. cbn [opt_uint_attr forallb]. now rewrite attr_ok_utoa. Qed.
+
+Theorem wf_enc reg v : wf_value reg v = true -> wf_doc (enc v) = true.
+Proof.
+  intros Hwf. destruct v; cbn [wf_value enc] in *.
+  - unfold wf_message in Hwf. do 5 (apply andb_true_iff in Hwf as [Hwf ?]).
+    destruct (wf_ext_parts reg 1 _ H) as (_ & He & Hw). destruct (enc_err_wf _ H0) as (E1 & E2).
+    unfold enc_message. apply wf_doc_stanza; [reflexivity|now apply wf_enc_attrs| |].
+    + now rewrite !forallb_app, !is_elem_opt_elem, E2, He.
+    + rewrite !forallb_app, !wf_opt_elem, E1, Hw by (auto; reflexivity). reflexivity.
+  - unfold wf_presence in Hwf. do 5 (apply andb_true_iff in Hwf as [Hwf ?]).
+    destruct (wf_ext_parts reg 0 _ H) as (_ & He & Hw). destruct (enc_err_wf _ H0) as (E1 & E2).
+    unfold enc_presence. apply wf_doc_stanza; [reflexivity|now apply wf_enc_attrs| |].
+    + rewrite !forallb_app, !is_elem_opt_elem, E2, He. now destruct (p_priority p =? 0)%Z.
+    + rewrite !forallb_app, !wf_opt_elem, E1, Hw by (auto; reflexivity).
+      destruct (p_priority p =? 0)%Z; [reflexivity|].
+      cbn [forallb]. rewrite wf_tree_XE.
+      pose proof (itoa_nonempty (p_priority p)) as Hne.
+      cbn [forallb wf_tree implb]. rewrite all_legal_itoa.
+      destruct (itoa (p_priority p)); [congruence|reflexivity].
+  - unfold wf_iq in Hwf. do 3 (apply andb_true_iff in Hwf as [Hwf ?]).
+    unfold enc_iq. apply wf_doc_stanza; [reflexivity|now apply wf_enc_attrs| |].
+    + rewrite !forallb_app. apply andb_true_iff. split; [|apply andb_true_iff; split].
+      * destruct (i_payload i) as [t|]; [|reflexivity]. apply andb_true_iff in H1 as [Hx _].
+        unfold wf_ext, wf_doc in Hx. apply andb_true_iff in Hx as [Hx _]. apply andb_true_iff in Hx as [Hx _].
+        cbn [opt_list forallb]. now rewrite Hx.
+      * destruct (i_error i) as [e|]; [|reflexivity]. apply andb_true_iff in H0 as [He _].
+        now destruct (enc_err_wf _ He).
+      * destruct (i_any i) as [n|]; [|reflexivity]. cbn [opt_list forallb]. now rewrite enc_node_is_elem.
+    + rewrite !forallb_app. apply andb_true_iff. split; [|apply andb_true_iff; split].
+      * destruct (i_payload i) as [t|]; [|reflexivity]. apply andb_true_iff in H1 as [Hx _].
+        unfold wf_ext, wf_doc in Hx. apply andb_true_iff in Hx as [Hx _]. apply andb_true_iff in Hx as [_ Hx].
+        cbn [opt_list forallb]. now rewrite Hx.
+      * destruct (i_error i) as [e|]; [|reflexivity]. apply andb_true_iff in H0 as [He _].
+        now destruct (enc_err_wf _ He).
+      * destruct (i_any i) as [n|]; [|reflexivity]. destruct n as [ns l na c ks].
+        apply andb_true_iff in H as [H _]. apply andb_true_iff in H as [H _].
+        cbn [opt_list forallb]. now rewrite (wf_enc_node _ [] H).
+  - unfold wf_doc. now rewrite enc_node_is_elem, (wf_enc_node n [] Hwf).
+  - unfold wf_doc. cbn [is_elem is_text negb andb]. rewrite wf_tree_XE.
+    rewrite forallb_app, attr_ok_opt_uint by reflexivity. destruct resume as [[|]|]; reflexivity.
+  - repeat (apply andb_true_iff in Hwf as [Hwf ?]).
+    unfold wf_doc. cbn [is_elem is_text negb andb]. rewrite wf_tree_XE.
+    rewrite !forallb_app, !attr_ok_opt by (auto; reflexivity).
+    destruct (max =? 0); [reflexivity|]. cbn [forallb]. now rewrite attr_ok_utoa.
+  - reflexivity.
+  - unfold wf_doc. cbn [is_elem is_text negb andb]. rewrite wf_tree_XE.
+    cbn [forallb]. now rewrite attr_ok_utoa.
+  - apply andb_true_iff in Hwf as [Hp _].
+    unfold wf_doc. cbn [is_elem is_text negb andb]. rewrite wf_tree_XE.
+    rewrite forallb_app, attr_ok_opt, attr_ok_opt_uint by (auto; reflexivity). reflexivity.
+  - apply andb_true_iff in Hwf as [Hp _].
+    unfold wf_doc. cbn [is_elem is_text negb andb]. rewrite wf_tree_XE.
+    rewrite forallb_app, attr_ok_opt, attr_ok_opt_uint by (auto; reflexivity). reflexivity.
+  - unfold wf_doc. cbn [is_elem is_text negb andb]. rewrite wf_tree_XE.
+    rewrite attr_ok_opt_uint by reflexivity. reflexivity.
+  - apply andb_true_iff in Hwf as [Hm Hp].
+    unfold wf_doc. cbn [is_elem is_text negb andb]. rewrite wf_tree_XE.
+    rewrite (wf_text_esc _ val (plain_all_legal val Hp)).
+    cbn [forallb]. unfold attr_ok at 1. cbn [fst snd]. rewrite Hm.
+    destruct val; reflexivity.
+  - unfold wf_doc. cbn [is_elem is_text negb andb]. rewrite wf_tree_XE.
+    rewrite (wf_text_esc _ val (plain_all_legal val Hwf)). destruct val; reflexivity.
+Qed.
+
+(* ---- skeletons do not look at text ---- *)
+Lemma skeleton_opt_elem name s :
+  flat_map skeleton (opt_elem name (blank_str s)) = flat_map skeleton (opt_elem name s).
+Proof. now destruct s. Qed.
+
+Lemma skeleton_enc_err e : flat_map skeleton (enc_err (blank_err e)) = flat_map skeleton (enc_err e).
+Proof.
+  destruct (skeleton_err_tree e) as [He Hs]. unfold enc_err. rewrite He.
+  destruct (err_empty e); [reflexivity|]. cbn [flat_map]. fold (err_tree (blank_err e)). fold (err_tree e).
+  now rewrite Hs.
+Qed.
+
+Theorem skeleton_blank v : skeleton (enc (blank v)) = skeleton (enc v).
+Proof.
+  destruct v; cbn [blank enc]; try reflexivity.
+  - unfold enc_message. cbn [m_attrs m_subject m_body m_thread m_error m_exts].
+    rewrite !skeleton_XE, skeleton_attrs, !flat_map_app, !skeleton_opt_elem, skeleton_enc_err. reflexivity.
+  - unfold enc_presence. cbn [p_attrs p_show p_status p_priority p_error p_exts].
+    rewrite !skeleton_XE, skeleton_attrs, !flat_map_app, !skeleton_opt_elem, skeleton_enc_err. reflexivity.
+  - unfold enc_iq. cbn [i_attrs i_payload i_error i_any].
+    rewrite !skeleton_XE, skeleton_attrs, !flat_map_app. f_equal. f_equal. f_equal. f_equal.
+    + destruct (i_error i); [apply skeleton_enc_err|reflexivity].
+    + destruct (i_any i) as [n|]; [|reflexivity]. cbn [option_map opt_list flat_map].
+      now rewrite skeleton_blank_node.
+  - apply skeleton_blank_node.
+  - rewrite !skeleton_XE. f_equal. f_equal. now rewrite !map_app, !map_fst_opt_attr.
+  - rewrite !skeleton_XE. f_equal. f_equal. now rewrite !map_app, !map_fst_opt_attr.
+  - rewrite !skeleton_XE. f_equal. f_equal. now rewrite !map_app, !map_fst_opt_attr.
+  - rewrite !skeleton_XE. f_equal. f_equal. now destruct val.
+  - rewrite !skeleton_XE. f_equal. f_equal. now destruct val.
+Qed.
+
+(* ================= the C01 statements ================= *)
+Theorem roundtrip_core reg v :
+  reg_ok reg = true -> wf_value reg v = true ->
+  dec reg (vtype_of v) (enc v) = Some v /\
+  (exists t, parse (print (enc v)) = Some t /\
+             exists v', dec reg (vtype_of v) t = Some v' /\ v' = v /\ print (enc v') = print (enc v)).
+Proof.
+  intros Hreg Hwf. pose proof (dec_enc reg v Hreg Hwf) as Hd. split; [exact Hd|].
+  exists (enc v). split; [apply parse_print; now apply (wf_enc reg)|].
+  exists v. auto.
+Qed.
+
+Theorem skeleton_text_independent reg v v' :
+  wf_value reg v = true -> blank v = blank v' ->
+  option_map skeleton (parse (print (enc v))) = Some (skeleton (enc v')).
+Proof.
+  intros Hwf Hb. rewrite (parse_print _ (wf_enc reg v Hwf)). cbn [option_map].
+  now rewrite <- (skeleton_blank v), Hb, skeleton_blank.
+Qed.
